@@ -3,5 +3,5 @@
 import json, sys
 p = "/verif/seeded/%s/meta.json" % sys.argv[1]
 m = json.load(open(p))
-m.setdefault("history", []).append(sys.argv[2])
+m.setdefault("history", []).append(sys.stdin.read().strip() if sys.argv[2] == "-" else sys.argv[2])
 json.dump(m, open(p, "w"), indent=1)
